@@ -36,6 +36,32 @@ def gen_case(rng):
     return cj, basis, params, cutmode, rng.getrandbits(30)
 
 
+BIN = ['AND', 'OR', 'XOR', 'NAND', 'NOR', 'NXOR', 'GT', 'LT', 'GEQ', 'LEQ']
+
+
+def gen_correlated(rng, k):
+    """cut leaves that are correlated asymmetrically (one implies the other) under a redundant cone: the
+    smaller replacement has to use the unreachable leaf vector as a don't-care"""
+    corr = rng.choice([('AND', 'AND'), ('OR', 'OR'), ('AND', 'AND'), ('GT', 'AND'), ('NOR', 'AND')])
+    gates = [['a', 'INPUT', []], ['b', 'INPUT', []], ['c', 'INPUT', []],
+             ['x', corr[0], ['a', 'b']], ['y', corr[1], ['x', 'c']]]
+    if k == 0:
+        cone = [['p', 'GEQ', ['x', 'y']], ['q', 'LEQ', ['x', 'y']], ['n', 'NAND', ['p', 'q']]]
+    else:
+        avail = ['x', 'y']
+        cone = []
+        for i in range(rng.choice([3, 3, 4])):
+            ops = [rng.choice(avail), rng.choice(avail)]
+            if i >= 1:
+                ops[0] = cone[-1][0]
+            cone.append(['t%d' % i, rng.choice(BIN), ops])
+            avail.append('t%d' % i)
+    gates += cone
+    outs = [cone[-1][0]] + (['y'] if rng.random() < 0.3 else [])
+    j = {'gates': gates, 'inputs': ['a', 'b', 'c'], 'outputs': outs, 'blocks': []}
+    return realize(j), rng.choice(['AIG', 'AIG', 'XAIG']), {'max_subcircuit_size': 9, 'cut_size': 5, 'cut_limit': 25, 'solver_time_limit_sec': 15}, 'all', 0
+
+
 def run_minimize(cj, basis, params, cutmode, cutseed, validate):
     import random
     import mockturtle_wrapper as mw
@@ -172,6 +198,11 @@ def correspondence(ctx):
 
 def search(ctx):
     rng = ctx.rng('search')
+    for k in range(ctx.scale(60, 600)):
+        cj, basis, params, cutmode, cutseed = gen_correlated(rng, k)
+        ctx.case(json.dumps(['corr', cj['gates'], cj['outputs'], basis]))
+        ctx.count('correlated_leaves')
+        check_case(ctx, cj, basis, params, cutmode, cutseed)
     for k in range(ctx.scale(120, 2500)):
         cj, basis, params, cutmode, cutseed = gen_case(rng)
         ctx.case(json.dumps([cj['gates'], cj['outputs'], basis, params, cutmode, cutseed]))
